@@ -158,7 +158,7 @@ class Gen:
         return self.r.choice([2, -1, 3, -2, 1, 0, (1, 2), 4])
 
     def cbound(self, c):
-        return abs(c) if isinstance(c, int) else 1
+        return abs(c) if isinstance(c, int) else abs(c[0])
 
     def cdexp(self, c):
         return 0 if isinstance(c, int) else c[1].bit_length() - 1
@@ -365,7 +365,7 @@ class Gen:
                  self._p(m, "p_cols", s, e), m.elementwise, m.depth + 1, m.ops + ("cols",))
 
     def node(self, kind, shape, op, txt, cpp, orc, bound, dexp, kids, elementwise=True):
-        kname = {"addc": "add", "maddc": "madd", "abs": "un", "sqr": "un", "neg": "smul", "mul": "bin", "div": "bin",
+        kname = {"addc": "add", "maddc": "madd", "abs": "un", "sqr": "un", "inv": "un", "neg": "smul", "mul": "bin", "div": "bin",
                  "min": "bin", "max": "bin"}.get(op, op)
         if kind == "M" and kname in ("un", "bin", "smul"):
             kname = "m" + kname
@@ -670,9 +670,12 @@ class Gen:
 
     def un(self, kind, f, a):
         pre = "" if kind == "V" else "m"
-        cpp = {"abs": f"abs({a.cpp})", "sqr": f"sqr({a.cpp})", "neg": f"(-{a.cpp})"}[f]
+        cpp = {"abs": f"abs({a.cpp})", "sqr": f"sqr({a.cpp})", "neg": f"(-{a.cpp})", "inv": f"elem_inv({a.cpp})"}[f]
         b = a.bound * a.bound if f == "sqr" else a.bound
         dx = 2 * a.dexp if f == "sqr" else a.dexp
+        if f == "inv":
+            # elem_inv: the operand must hold non-zero powers of two +-2^k with -dexp <= k < bit_length(bound)
+            b, dx = 1 << a.dexp, max(1, a.bound).bit_length()
         return self.node(kind, a.shape, f, f"({pre}un {f} {a.txt})", cpp, f"o_{pre}un(f_{f},{a.orc})", b, dx, [a])
 
     def bin(self, kind, f, a, b):
